@@ -187,26 +187,38 @@ class ASTCFG(dict[str, WritableASTBlock]):
         return noops  # type: ignore
 
     def prune_empty(self) -> set[WritableASTBlock]:
-        """Prune empty blocks from the CFG."""
+        """Prune empty blocks from the CFG.
+
+        An empty block is kept (as a block that only contains 'pass') if
+        removing it would leave one of its predecessors with two identical
+        jump targets, i.e. both arms of a branch lead to the same place, or
+        would leave the graph without a unique entry block, i.e. the empty
+        entry block is followed by a loop header.
+        """
         empty = set()
         for name, block in list(self.items()):
-            if not block.instructions:
-                empty.add(self.pop(name))
-                # Empty blocks can only have a single jump target.
-                it = block.jump_targets[0]
-                # Iterate over the blocks looking for blocks that point to the
-                # removed block. Then rewire the jump_targets accordingly.
-                for b in list(self.values()):
-                    if len(b.jump_targets) == 0:
-                        continue
-                    elif len(b.jump_targets) == 1:
-                        if b.jump_targets[0] == name:
-                            b.jump_targets[0] = it
-                    elif len(b.jump_targets) == 2:
-                        if b.jump_targets[0] == name:
-                            b.jump_targets[0] = it
-                        elif b.jump_targets[1] == name:
-                            b.jump_targets[1] = it
+            if block.instructions:
+                continue
+            # Empty blocks can only have a single jump target.
+            it = block.jump_targets[0]
+            predecessors = [b for b in self.values() if name in b.jump_targets]
+            duplicates_target = it == name or any(
+                it in b.jump_targets for b in predecessors
+            )
+            is_sole_entry = not predecessors and any(
+                it in b.jump_targets for b in self.values() if b is not block
+            )
+            if duplicates_target or is_sole_entry:
+                block.instructions.append(ast.Pass())
+                continue
+            empty.add(self.pop(name))
+            # Rewire the jump targets of all blocks that point to the removed
+            # block.
+            for b in predecessors:
+                b.jump_targets = [
+                    it if target == name else target
+                    for target in b.jump_targets
+                ]
         self.empty = empty
         return empty
 
